@@ -37,6 +37,12 @@ func (r *R) P(pct int) bool       { return r.Intn(100) < pct }
 func (r *R) Pick(xs []string) string {
 	return xs[r.Intn(len(xs))]
 }
+func (r *R) Pick2(a, b obj) obj {
+	if r.P(50) {
+		return a
+	}
+	return b
+}
 func (r *R) Fork() *R { return &R{s: r.U64()} }
 func (r *R) Shuffle(n int, swap func(i, j int)) {
 	for i := n - 1; i > 0; i-- {
